@@ -756,8 +756,13 @@ fn run_case(cfg: &Config, text: &str, rng: &mut Rng, verbose: bool) -> CaseOut {
                         }
                     }
                 }
-                if out.is_err() {
-                    tags.push("provider_call_panics".into());
+                if let Err(msg) = &out {
+                    if !msg.contains("raw > 0") {
+                        fails.push(format!("provider {} panics at offset {}: {}", pi, off, msg));
+                    }
+                    // only seen for a pattern that matches the empty string: has_word(0) trips debug_assert!(raw > 0) in
+                    // CreatedWords::single -- a totality defect (C03), the model reproduces it as RPanic
+                    tags.push("provider_call_panics(regex_empty_match,C03)".into());
                 }
                 if verbose {
                     println!("provider {} offset {} other={:#x} pre={:?} -> {:?}", pi, off, other_bits, pre_nodes, out);
@@ -844,7 +849,12 @@ fn run_case(cfg: &Config, text: &str, rng: &mut Rng, verbose: bool) -> CaseOut {
             }
         }
         Ok(Err(e)) => tags.push(format!("tokenize_err:{}", e.split('(').next().unwrap_or(""))),
-        Err(_) => tags.push("tokenize_panics".into()),
+        Err(msg) => {
+            if !msg.contains("raw > 0") {
+                fails.push(format!("tokenization panics: {}", msg));
+            }
+            tags.push("tokenize_panics(regex_empty_match,C03)".into())
+        }
     }
     if verbose {
         println!("classes   : {:x?}\ncan_bow   : {:?}\ncontinuity: {:?}\nleft-to-right runs give: {:?}", cats, bows, conts, spec);
@@ -925,7 +935,7 @@ pub fn run(args: &Args) {
             emit(&mut sink, out.desc.clone(), json!({"directed": d, "call_seed": cs}), out);
         }
     }
-    let nconfigs = args.n(150, 2500);
+    let nconfigs = args.n(250, 3000);
     let per = 4;
     for _ in 0..nconfigs {
         let cseed = rng.next();
